@@ -45,6 +45,15 @@ def ob_class(ctx):
     g = Geometry(K.cutter)
     pattern = K.structure()
     r = ctx.mk.seq("r", n, "ACGT")
+    if any(ch not in "ACGT" for ch in g.site) and KNOWN_BOTH in known_keys():
+        # known finding (see DESIGN.md 13.3): where the forward and the reverse reading of an ambiguous site match at the
+        # SAME position, Bio.Restriction reports the forward cut only, so moclo's illegal-site screen cannot see the other.
+        # That shape is excluded here (and demonstrated by the obligation that assumes it) so that any other violation of
+        # the clause is still reported.
+        from .rblock import _letters_at
+
+        both = Or([And(_letters_at(r, n, p_, g.site), _letters_at(r, n, p_, g.rsite)) for p_ in range(n)])
+        ctx.assume(both if P.get("only_known_shape") else Not(both))
     rec = st.record.CircularRecord(st.Seq(r), id="rec")
     ent = K(rec)
     valid = ent.is_valid()
@@ -123,6 +132,25 @@ def ob_class(ctx):
     return True
 
 
+KNOWN_BOTH = "C04:ambiguous-site:forward-and-reverse-reading-at-one-position"
+_KNOWN = []
+
+
+def known_keys():
+    if not _KNOWN:
+        from symx.run import load_known
+
+        _KNOWN.append({k.get("key") for k in load_known(ID)})
+    return _KNOWN[0]
+
+
+def classify(result, cex):
+    """key of the known finding a counterexample belongs to (None = new)"""
+    if (result.get("params") or {}).get("only_known_shape"):
+        return KNOWN_BOTH
+    return None
+
+
 def shape_key(pattern):
     """pattern with the letters inside groups 1 and 3 blanked (signature letters)"""
     out, gi, cur = [], 0, 0
@@ -191,4 +219,8 @@ def obligations(tier, seed):
             p = dict(params, n=n)
             obs.append(Ob("%s n=%d (F=%d)" % (label, n, F), ob_class, p, samples=3, cost=n ** 3,
                           expect_witness=("accepted", "rejected"), group=label))
+        if params["src"] == "generic" and params["enzyme"] in AMBIGUOUS_ENZYMES and params["role"] == "module" \
+                and KNOWN_BOTH in known_keys():
+            obs.append(Ob("%s n=%d restricted to the known-finding shape" % (label, F), ob_class,
+                          dict(params, n=F, only_known_shape=True), samples=0, cost=F ** 3, group="known " + label))
     return obs
